@@ -23,12 +23,17 @@ func (in concInput) String() string {
 }
 
 func runOne(im *rt.Impl, in concInput, yield func()) string {
-	rec := &rt.Recorder{Yield: yield}
+	return runOn(im, im.NewParser(), in, yield)
+}
+
+// runOn parses in on the given (possibly already used) parser object.
+func runOn(im *rt.Impl, p rt.Parser, in concInput, yield func()) string {
+	rec := &rt.Recorder{Yield: yield, MaxActs: 100000}
 	var res rt.Result
 	if in.src != nil {
-		res = im.NewParser().ParseSrc(in.src, rec)
+		res = p.ParseSrc(in.src, rec)
 	} else {
-		res = im.NewParser().Parse(seqTypes(im, in.toks), rec, 0, len(in.toks)+4)
+		res = p.Parse(seqTypes(im, in.toks), rec, 0, len(in.toks)+4)
 	}
 	s := sig(res, rec)
 	if res.ErrObj != nil && im.ErrorString != nil {
@@ -177,6 +182,11 @@ func init() {
 			return
 		}
 		ins := concInputs(it, im, spec.N)
+		// a deep input: pumping a recursive production pushes the parser stack far beyond its initial capacity
+		if long := ref.NewCFG(it.G).LongSentence(150); long != nil {
+			ins = append(ins, concInput{toks: long})
+			st.add("deep_inputs", 1)
+		}
 		// the concurrent phase comes FIRST: lazily initialised shared state (a cache filled on first use) is only
 		// written while it is still cold, and a sequential warm-up would hide those writes from the detector
 		got := make([][]string, 16)
@@ -186,9 +196,18 @@ func init() {
 			got[g] = make([]string, len(ins))
 			go func(g int) {
 				defer wg.Done()
+				// even goroutines reuse ONE parser object for all their inputs, odd ones create a fresh one each time
+				var own rt.Parser
+				if g%2 == 0 {
+					own = im.NewParser()
+				}
 				for k := range ins {
 					i := (k + g*7) % len(ins)
-					got[g][i] = runOne(im, ins[i], nil)
+					if own != nil {
+						got[g][i] = runOn(im, own, ins[i], nil)
+					} else {
+						got[g][i] = runOne(im, ins[i], nil)
+					}
 				}
 			}(g)
 		}
